@@ -420,10 +420,10 @@ class Class(object):
             if attr.upper() != uname :
                 continue
             
-            if attr in self.__dict__:
-                return self.__dict__[attr]
-            else:
-                return object.__getattribute__(self, attr)
+            # a referential attribute reads through its property, also when 
+            # the instance still holds a value from before the association 
+            # was formalized
+            return object.__getattribute__(self, attr)
         
         return object.__getattribute__(self, name)
     
